@@ -9,6 +9,7 @@ RandOp(n) == LET k == RE({"Store", "Store", "Store", "Load", "Load", "Remove", "
               id == RE(Ids \cup Ids \cup {""})
           IN IF k = "Store" THEN [op |-> k, t |-> t, id |-> id, v |-> RE(Vals)]
              ELSE IF k = "List" THEN [op |-> k, t |-> t, id |-> "", v |-> Absent]
+             ELSE IF k = "Load" THEN [op |-> k, t |-> t, id |-> id, v |-> Absent, dirty |-> RE(BOOLEAN)]   \* dirty: the destination was used before
              ELSE [op |-> k, t |-> t, id |-> id, v |-> Absent]
 Init == m = InitMap /\ hist = <<>> /\ done = FALSE
 Step == /\ Len(hist) < Depth
